@@ -832,3 +832,143 @@ def id_fresh_objects(ctx):
     if n < 12:
         out.append(undecided(R, 'floor', 'only %d constructor sites recognised (expected at least 12)' % n))
     return out
+
+
+# ---------------------------------------------------------------------------------------------
+def _x(fn, o):
+    return _strip_clones(fn.expr_of_operand(o))
+
+
+def _base_arc(e):
+    """The shared pointer an access path starts from: for an object created in the function (`Arc::new(..)`), the creation itself
+    (`(*arc).0` -> arc); for an object reached through a parameter, the access path without clones / derefs / locks (`self.schedule`)."""
+    WRAP = ('::clone', '::deref', '::borrow', '::as_ref', 'Mutex::lock', 'Mutex::try_lock', 'Result::unwrap', 'Result::expect')
+    full = e
+    for _ in range(20):
+        if full[0] in ('field', 'downcast', 'index', 'deref'):
+            full = full[1]
+        elif full[0] == 'call' and full[2] and full[1].endswith(WRAP):
+            full = full[2][0]
+        else:
+            break
+    if full[0] == 'call' and full[1].endswith(('Arc::new', 'Mutex::new')):
+        return full
+    light = e
+    for _ in range(20):
+        if light[0] == 'deref':
+            light = light[1]
+        elif light[0] == 'call' and light[2] and light[1].endswith(WRAP):
+            light = light[2][0]
+        else:
+            break
+    return light
+
+
+def _is_flag_ty(ty):
+    t = clean_ty(ty).replace('std::sync::poison::mutex::', '').replace('alloc::sync::', '').replace('&mut ', '').replace('&', '').strip()
+    return t in ('Mutex<bool>', 'Arc<Mutex<bool>>')
+
+
+def id_same(ctx):
+    """The two ends of every hand-shake are the same object.  Each of the crate's hand-shakes is written as "create a shared object, give a
+    clone to the other party, keep one": the blocked caller's condition variable (registered with the queue, handed to its job, waited on),
+    its ready flag and result slot, a pool thread's busy flag (set by the scheduler, cleared by the thread), the schedule a pool thread reads
+    (the one queues are pushed on), a future's result slot (filled by the signaller).  A clone replaced by a fresh object of the same type
+    type-checks, passes every ordering rule - and the two parties talk past each other."""
+    F = ctx.F
+    out = []
+    R = 'ID-same'
+    n = 0
+
+    def same(key, what, exprs, fn):
+        nonlocal n
+        exprs = [e for e in exprs if e is not None]
+        if len(exprs) < 2:
+            return
+        n += 1
+        if all(e == exprs[0] for e in exprs[1:]):
+            out.append(ok(R, key, '%s: one object (%s)' % (what, render(exprs[0])[:40]), fn=fn.name))
+        else:
+            d = [e for e in exprs if e != exprs[0]][0]
+            out.append(bad(R, key, '%s are different objects (`%s` vs `%s`): the party that waits and the party that signals do not share it' % (what, render(exprs[0])[:50], render(d)[:50]), fn=fn.name))
+    sb = F.fn('desync::Scheduler::sync_background')
+    if sb:
+        waits = [t for bb, t in sb.calls() if (t['func'].get('fn') or '').startswith('std::sync::poison::condvar::Condvar::wait') and not sb.blocks[bb]['cleanup']]
+        downs = [t for bb, t in sb.calls() if (t['func'].get('fn') or '').endswith('Arc::downgrade') and t['args'] and t['args'][0]['k'] != 'const' and 'Condvar' in clean_ty(t['args'][0]['pl']['ty']) and not sb.blocks[bb]['cleanup']]
+        news = [t for bb, t in sb.calls() if (t['func'].get('fn') or '').endswith('UnsafeJob::new_with_notification') and not sb.blocks[bb]['cleanup']]
+        cv = [_base_arc(_x(sb, t['args'][0])) for t in waits] + [_base_arc(_x(sb, t['args'][0])) for t in downs] + [_base_arc(_x(sb, t['args'][1])) for t in news if len(t['args']) > 2]
+        same('sync_background|one-condition-variable', 'the condition variable that is registered with the queue, handed to the job and waited on', cv, sb)
+        flags = [_base_arc(_x(sb, t['args'][2])) for t in news if len(t['args']) > 2]
+        locks = [_base_arc(_x(sb, t['args'][0])) for bb, t in sb.calls() if (t['func'].get('fn') or '').endswith('Mutex::lock') and t['args'] and t['args'][0]['k'] != 'const'
+                 and _is_flag_ty(t['args'][0]['pl']['ty']) and not sb.blocks[bb]['cleanup']]
+        same('sync_background|one-ready-flag', 'the ready flag handed to the job and the flag the caller tests', flags + locks, sb)
+    for name in ('desync::Scheduler::sync_background', 'desync::Scheduler::sync_drain'):
+        fn = F.fn(name)
+        if not fn:
+            continue
+        caps = []
+        for b in fn.blocks:
+            for s_ in b['stmts']:
+                if s_['k'] == 'assign' and s_['rv']['k'] == 'agg' and s_['rv'].get('ak') == 'closure':
+                    for o in s_['rv'].get('ops', []):
+                        if o['k'] != 'const' and 'Arc<' in clean_ty(o['pl']['ty']):
+                            caps.append(_base_arc(_x(fn, o)))
+        takes = [_base_arc(_x(fn, t['args'][0])) for bb, t in fn.calls() if (t['func'].get('fn') or '').endswith(('Option::take', 'mem::replace', 'mem::take')) and t['args'] and t['args'][0]['k'] != 'const'
+                 and 'Option<' in clean_ty(t['args'][0]['pl']['ty']) and not fn.blocks[bb]['cleanup'] and 'lock(' in render(fn.expr_of_operand(t['args'][0]))]
+        if caps and takes:
+            n += 1
+            key = '%s|one-result-slot' % short(name)
+            if all(any(t_ == c_ for c_ in caps) for t_ in takes):
+                out.append(ok(R, key, 'the slot the caller empties is the slot its job was given', fn=fn.name))
+            else:
+                out.append(bad(R, key, 'the caller reads its result from a slot (`%s`) that the queued job was not given: the job\'s value goes elsewhere and the caller finds nothing' % render(takes[0])[:50], fn=fn.name))
+    sd = F.fn('desync::SchedulerCore::schedule_dormant')
+    if sd:
+        runs = [(bb, t) for bb, t in sd.calls() if (t['func'].get('fn') or '').endswith('SchedulerThread::run') and not sd.blocks[bb]['cleanup']]
+        for bb, t in runs:
+            cl = [a for a in t['args'][1:] if a['k'] != 'const' and clean_ty(a['pl']['ty']).startswith('{closure:')]
+            if not cl:
+                continue
+            ce = sd.expr_of_operand(cl[0])
+            if ce[0] != 'agg':
+                continue
+            capflags = []
+            for b3 in sd.blocks:
+                for s3 in b3['stmts']:
+                    if s3['k'] == 'assign' and s3['rv']['k'] == 'agg' and s3['rv'].get('ak') == 'closure' and s3['rv'].get('def') == ce[2]:
+                        capflags = [_base_arc(_x(sd, o_)) for o_ in s3['rv'].get('ops', []) if o_['k'] != 'const' and _is_flag_ty(o_['pl']['ty'])][:1]
+            # the flag the scheduler marks busy: the mutex locked in the walk over the table
+            locks = [_base_arc(_x(sd, t2['args'][0])) for b2, t2 in sd.calls() if (t2['func'].get('fn') or '').endswith(('Mutex::lock', 'Mutex::try_lock')) and t2['args'] and t2['args'][0]['k'] != 'const'
+                     and _is_flag_ty(t2['args'][0]['pl']['ty']) and not sd.blocks[b2]['cleanup']]
+            same('schedule_dormant|one-busy-flag', 'the busy flag the scheduler sets and the flag the woken thread clears', locks[:1] + capflags, sd)
+    st = F.fn('desync::SchedulerCore::schedule_thread')
+    if st:
+        for b in st.blocks:
+            for s_ in b['stmts']:
+                if s_['k'] == 'assign' and s_['rv']['k'] == 'agg' and s_['rv'].get('ak') == 'closure':
+                    for o in s_['rv'].get('ops', []):
+                        if o['k'] != 'const' and 'VecDeque<alloc::sync::Arc<desync::JobQueue' in clean_ty(o['pl']['ty']):
+                            n += 1
+                            e = _base_arc(_x(st, o))
+                            key = 'schedule_thread|threads-read-this-schedulers-schedule'
+                            if e[0] == 'field' and e[2] == 'schedule' and e[1][0] == 'arg':
+                                out.append(ok(R, key, 'the pool thread fetches from `self.schedule`, the list queues are pushed on', fn=st.name))
+                            else:
+                                out.append(bad(R, key, 'the closure that fetches work for a pool thread reads `%s`, not this scheduler\'s schedule: queues pushed on the schedule are never seen by the threads' % render(e)[:50], fn=st.name))
+    for fn in F.crate_fns():
+        fut = sig = None
+        for b in fn.blocks:
+            if b['cleanup']:
+                continue
+            for s_ in b['stmts']:
+                if s_['k'] == 'assign' and s_['rv']['k'] == 'agg' and s_['rv'].get('adt') == 'desync::SchedulerFuture':
+                    names = [f_['name'] for f_ in F.adts['desync::SchedulerFuture']['variants'][0]['fields']]
+                    if 'result' in names and len(s_['rv']['ops']) > names.index('result'):
+                        fut = _base_arc(_x(fn, s_['rv']['ops'][names.index('result')]))
+                if s_['k'] == 'assign' and s_['rv']['k'] == 'agg' and s_['rv'].get('adt') == 'desync::SchedulerFutureSignaller' and s_['rv'].get('ops'):
+                    sig = _base_arc(_x(fn, s_['rv']['ops'][0]))
+        if fut is not None and sig is not None:
+            same('%s|future-and-signaller-share-the-slot' % short(fn.root or fn.name), 'the slot the signaller fills and the slot the future reads', [fut, sig], fn)
+    if n < 5:
+        out.append(undecided(R, 'floor', 'only %d of the hand-shakes were recognised (expected at least 5)' % n))
+    return out
